@@ -2373,6 +2373,12 @@ token * mmd_engine_parse_substring(mmd_engine * e, size_t byte_start, size_t byt
 	// Describe token blocks for debugging purposes
 	// token_describe(doc, NULL);
 
+	if (doc && (doc->start + doc->len < byte_start + byte_len)) {
+		// Trailing whitespace that forms no block of its own (e.g. a last line
+		// of blanks without line ending) still belongs to the document
+		doc->len = byte_start + byte_len - doc->start;
+	}
+
 	if (doc) {
 		// Parse blocks for pairs
 		mmd_assign_ambidextrous_tokens_in_block(e, doc, 0);
